@@ -223,3 +223,21 @@ pub fn trace_state(b: &BoardState, t: &DrawTable) {
         tbl
     );
 }
+
+/// H6, schedule exploration: WALLEYE_VERIF_SCHED="accept=15,answer=40" makes the thread that reaches
+/// the named point sleep that many milliseconds (points: `start` = search thread entered,
+/// `accept` = root improvement accepted by the clock check but not yet handed over,
+/// `answer` = polling loop left, go not yet answered).  Without the variable: nothing.
+pub fn sched_point(name: &str) {
+    if let Ok(spec) = std::env::var("WALLEYE_VERIF_SCHED") {
+        for item in spec.split(',') {
+            if let Some((k, v)) = item.split_once('=') {
+                if k == name {
+                    if let Ok(ms) = v.parse::<u64>() {
+                        std::thread::sleep(std::time::Duration::from_millis(ms));
+                    }
+                }
+            }
+        }
+    }
+}
